@@ -9,6 +9,7 @@ import json
 import os
 import shutil
 import subprocess
+import sys
 import tempfile
 
 VERIF = os.path.dirname(os.path.dirname(os.path.abspath(__file__)))
@@ -190,8 +191,12 @@ def run_one(d):
         det = {}
         checks = json.load(open(os.path.join(VERIF, "MANIFEST.json")))["checks"]
         env = dict(os.environ, VERIF_REPO=wt, PMLINT_EVIDENCE_DIR=os.path.join(tmp, "ev"))
+        target_only = "--target-only" in sys.argv
+        target = json.load(open(os.path.join(d, "meta.json"))).get("property")
         for c in checks:
             p = c["property_id"]
+            if target_only and p != target:
+                continue
             for tier in ("quick", "thorough"):
                 rr = subprocess.run([PY, "-m", "pmlint", "check", p, "--tier", tier], cwd=VERIF, env=env, capture_output=True, text=True)
                 if rr.returncode != 0:
@@ -205,7 +210,7 @@ def run_one(d):
 
 def main():
     dirs = sorted(glob.glob(os.path.join(VERIF, "seeded", "*/")))
-    with cf.ThreadPoolExecutor(max_workers=10) as ex:
+    with cf.ThreadPoolExecutor(max_workers=14) as ex:
         for sid, det, err in ex.map(run_one, dirs):
             mp = os.path.join(VERIF, "seeded", sid, "meta.json")
             meta = json.load(open(mp))
@@ -217,6 +222,12 @@ def main():
             if det is None:
                 meta["detected_now_error"] = err
             else:
+                if "--target-only" in sys.argv:
+                    # only the target property's checks were run: keep what the last full run recorded for the others
+                    prev = dict(meta.get("detected_now", {}))
+                    prev.pop(meta["property"], None)
+                    prev.update(det)
+                    det = prev
                 meta["detected_now"] = det
                 meta["detected_now_for_property"] = {t: (meta["property"] in det and t in det[meta["property"]]) for t in ("quick", "thorough")}
             json.dump(meta, open(mp, "w"), indent=1)
